@@ -194,6 +194,14 @@ fn c14_case(b: &Batch, ri: usize, x: &DV, extra_byte: u8, st: &mut Stats, counti
     if let Out::Ok(()) = write_crypto_chunked(&**ops, PathK::Single, cur, &[x.clone()], &mut buf, 67, key) {
         streams.push(("stream_chunked", buf));
     }
+    if x.leaf_count() > 50_000 {
+        // no explicit flushes: the writer emits its natural full-size chunks (a frame whose
+        // length field holds the maximum is a boundary value for the reader's length checks)
+        let mut buf = vec![];
+        if let Out::Ok(()) = write_crypto_chunked(&**ops, PathK::Single, cur, &[x.clone()], &mut buf, 1 << 30, key) {
+            streams.push(("stream_natural", buf));
+        }
+    }
     let path = tmp_path("c14");
     let file_ok = with_file && matches!(write_encrypted_file(&**ops, PathK::Single, cur, &[x.clone()], &path, PASSWORD), Out::Ok(()));
     if file_ok {
@@ -260,7 +268,7 @@ fn c14_case(b: &Batch, ri: usize, x: &DV, extra_byte: u8, st: &mut Stats, counti
                 }
                 // all 255 replacement values on the nonce and on the length fields of the first and last chunk
                 let first_last = frames.chunks.first().map_or(false, |c| i >= c.0 && i < c.0 + 8) || frames.chunks.last().map_or(false, |c| i >= c.0 && i < c.0 + 8);
-                let all = (region(i) == "nonce" || (region(i) == "length" && first_last)) && *kind != "file" && !big;
+                let all = (region(i) == "nonce" || (region(i) == "length" && first_last)) && *kind != "file" && (!big || (*kind == "stream_natural" && region(i) == "length"));
                 if big {
                     flips.truncate(1);
                 }
@@ -512,7 +520,7 @@ fn c08_case(b: &Batch, ri: usize, x: &DV, sched: &Schedule, st: &mut Stats, coun
 
 fn big_u8_values() -> Vec<DV> {
     // encodings around the 100 000-byte encryption block
-    [99_950usize, 100_010, 200_030, 250_000]
+    [100_010usize, 99_950, 200_030, 250_000]
         .iter()
         .map(|n| DV::L((0..*n).map(|i| DV::N(((i * 31 + 7) % 251) as u128)).collect()))
         .collect()
@@ -538,7 +546,7 @@ fn run_root(args: &Args, b: &Batch, ri: usize, st: &mut Stats) {
     let with_file = ri % 4 == 0 || thorough;
     // quick tier: a fixed subset of the roots (every root in the thorough tier)
     let h = vcore::rng::fnv64(b.uni.rust_ty(&root.ty, "").as_bytes());
-    let selected = thorough || is_vec_u8 || match prop.as_str() {
+    let selected = thorough || is_vec_u8 || root.ty == Ty::Seq(SeqKind::Vec, Box::new(Ty::Prim(Prim::Usize))) || match prop.as_str() {
         "C14" => h % 10 == 0,
         "C08" => h % 3 == 0,
         _ => true,
@@ -555,6 +563,26 @@ fn run_root(args: &Args, b: &Batch, ri: usize, st: &mut Stats) {
         }
     };
     let mut fails: Vec<(DV, Schedule, u8)> = vec![];
+    let is_vec_usize = root.ty == Ty::Seq(SeqKind::Vec, Box::new(Ty::Prim(Prim::Usize)));
+    if is_vec_usize && b.name == "fixed" && prop == "C08" {
+        // 160 kB of items that are serialized one by one: the encrypted stream's block boundary
+        // (and the writer fault behind it) falls inside the sequence
+        let x = DV::L((0..20_000u128).map(|i| DV::N(i * 7919 + 13)).collect());
+        let sched = Schedule { steps: vec![Step::Chunk(3), Step::Interrupted, Step::Chunk(65536)], tail_chunk: 90_000 };
+        let mut g = cell.borrow_mut();
+        if run(&x, &sched, 0x55, &mut g.0, true).is_err() {
+            fails.push((x, sched, 0x55));
+        }
+    }
+    if root.ty == Ty::Str && b.name == "fixed" && prop == "C07" {
+        // a string longer than any small-buffer threshold, as the last thing in the file
+        let x = DV::S((0..5000).map(|i| (b'a' + (i % 23) as u8) as char).collect());
+        let mut g = cell.borrow_mut();
+        let sched = Schedule::whole();
+        if run(&x, &sched, 0x55, &mut g.0, true).is_err() {
+            fails.push((x, sched, 0x55));
+        }
+    }
     if is_vec_u8 && b.name == "fixed" {
         // multi-chunk encrypted streams
         for x in big_u8_values().into_iter().take(if thorough { 4 } else if prop == "C14" { 1 } else { 2 }) {
